@@ -98,6 +98,9 @@ def worker(sh):
         fl = fixed_list(pat)
         # positive controls: same pattern, equal-mod-r representatives, zero-valued extra slots
         sc.dec(kid, 0, fl, 1, 0, 'positive/exact')
+        if fl:
+            # the omit-from-keys flag has no meaning in a list that describes a ciphertext: the value counts all the same
+            sc.dec(kid, 0, fl, 1, rng.choice([0, 10]), 'positive/exact', flag_some=True)
         eq = [(i, v + R if v + R < (1 << 256) else v) for i, v in fl]
         extra = [i for i in range(l) if i not in dict(fl)]
         if extra and rng.random() < 0.7:
@@ -107,7 +110,7 @@ def worker(sh):
         for _ in range(sh.pick(3, 8)):
             ent, kind = mutate_list(pat, l, rng)
             if ent is not None:
-                sc.dec(kid, 0, ent, 0, 0, 'list:' + kind)
+                sc.dec(kid, 0, ent, 0, 0, 'list:' + kind, flag_some=rng.random() < 0.4)
         # negatives: one ciphertext component modified
         for mod in (1, 2, 3, 4, 5, 6):
             if rng.random() < 0.6:
@@ -211,7 +214,7 @@ def run(ctx):
     ctx.extra['configs'] = cfgs
     ctx.assumptions = ['library pairing as instrument inside decrypt itself; message equality via Fq12::equal', 'coincidental equality of random GT elements has probability ~2^-255']
     need = ['decrypt|list:change/exhaustive-l3', 'decrypt|list:drop/exhaustive-l3', 'decrypt|list:add@free/exhaustive-l3', 'decrypt|list:add@hidden/exhaustive-l3', 'decrypt|positive/exact', 'decrypt|positive/equal-mod-r', 'decrypt|list:change', 'decrypt|list:drop', 'decrypt|list:add@free', 'decrypt|list:add@hidden',
-            'decrypt|hidden-fill:qualify', 'decrypt|hidden-fill:ndqualify', 'decrypt|hidden-fill:adjust', 'decrypt|adjust-hide:slot-still-set/same-id', 'decrypt|positive/adjust-unhide/same-id', 'decrypt|ct-component:1', 'decrypt|ct-component:3', 'decrypt|ct-component:6']
+            'decrypt|hidden-fill:qualify', 'decrypt|hidden-fill:ndqualify', 'decrypt|positive/exact/flagged-entries', 'decrypt|hidden-fill:adjust', 'decrypt|adjust-hide:slot-still-set/same-id', 'decrypt|positive/adjust-unhide/same-id', 'decrypt|ct-component:1', 'decrypt|ct-component:3', 'decrypt|ct-component:6']
     for r in need:
         if not any(k.startswith(r) for k in ctx.classes):
             ctx.required_classes.add(r)
